@@ -8,15 +8,17 @@ Bounded stand-in (runtime contract vs. reference predicate), labelled bounded:
   refusal_atomic   a refused call changes no query result
   paths_distinct   all_resources() paths of every map are pairwise distinct
   name_validation  MemoryMap.Name accepts exactly non-empty tuples (or strings) of non-empty strings / non-negative ints
-L1 note: _Namespace.is_available has three nested loops with break and a sorted() of a set union; a loop-invariant proof
-was not completed, so no clause of this property is counted as proved.
+L1 (pyvc, unbounded): _Namespace.is_available (three nested loops with explicit invariants), assign and extend are verified
+against contracts in contracts/namespace.py: availability <=> no query is prefix-related to an assigned name; the
+namespace stays prefix-free.  The MemoryMap-level steps (which names an add_* call queries, refusal atomicity, path
+distinctness through windows) and Name validation remain the bounded part below.
 """
 import itertools, random
 from ..common import Run
 from ..hdl.harness import run_configs
 
 PROP = "C18"
-LEVEL = "exploration"
+LEVEL = "other"
 CLAUSES = ["pair_exact", "history_exact", "refusal_atomic", "paths_distinct", "name_validation"]
 PARTS = ["a", "b", "0", 0, 1]
 
@@ -188,6 +190,8 @@ def main(run: Run):
     run.functions["amaranth_soc.memory.MemoryMap.Name.__new__"] = "bounded (runtime contract)"
     run.bounded_notes.append("whole property: bounded")
     run_configs(run, __name__, cfgs)
+    from . import C18_l1
+    C18_l1.add_to(run)
     return run.finish(
         explanation="Runtime contract for the namespace: acceptance must equal the reference predicate 'not prefix-related to any visible "
                     "name' (exhaustive for all ordered pairs of names up to length 3 over {'a','b','0',0,1}; random histories over trees with "
